@@ -551,6 +551,11 @@ class Gen:
             to = self.rng.choice([ir.DataType.FLOAT, ir.DataType.INT64])
         else:
             to = self.rng.choice([ir.DataType.FLOAT, ir.DataType.INT64])
+        if a.dtype == np.float64:
+            # ORT 1.30 drops a value produced by Cast(f32->f64)->Cast(->f32) when only a subgraph reads it ("Missing Input"): do not
+            # build that chain (runtime defect, not the builder's)
+            to = self.rng.choice([ir.DataType.INT64, ir.DataType.DOUBLE]) if a.dtype.kind == "f" and int_ok else ir.DataType.DOUBLE
+            return self.emit(opb, "Cast", [v], {"to": to})
         if self.rng.random() < 0.25:
             like = self.pick(lambda b, w: b.dtype in (np.float32, np.int64) and (a.dtype.kind != "f" or b.dtype.kind == "f" or True))
             if like is not None:
